@@ -219,6 +219,9 @@ type reqSpec struct {
 	client   string // "", "commit", "abort": go through storage.Client over real HTTP
 	net      bool   // send the (cut) body over a real connection announcing the full length, then close
 	dayOff   int    // day of the request, as an offset from the base date of the scripted clock
+	// the request is refused by the handler before any part is read: "ctype" (Content-Type is not
+	// multipart), "boundary" (multipart without boundary parameter), "method" (PUT), "auth" (Auth fails)
+	pre string
 }
 
 type scenario struct {
@@ -414,6 +417,8 @@ type server struct {
 	user  string
 	srv   *httptest.Server
 	store string
+	// authFail makes App.Auth report an error for the next requests
+	authFail bool
 }
 
 var dbCounter int
@@ -439,7 +444,12 @@ func newServer(store, user string) *server {
 		inner = local.NewFS(s.root)
 	}
 	s.ffs = &faultFS{inner: inner}
-	a := &app.App{DB: d, FS: s.ffs, Auth: func(http.ResponseWriter, *http.Request) (string, error) { return user, nil }}
+	a := &app.App{DB: d, FS: s.ffs, Auth: func(http.ResponseWriter, *http.Request) (string, error) {
+		if s.authFail {
+			return "", errors.New("verif auth failure")
+		}
+		return user, nil
+	}}
 	s.mux = http.NewServeMux()
 	a.RegisterOnMux(s.mux)
 	return s
@@ -547,6 +557,9 @@ type response struct {
 
 func errTag(text string) string {
 	switch {
+	case strings.Contains(text, "isn't multipart/form-data"), strings.Contains(text, "no multipart boundary"),
+		strings.Contains(text, "must be called as a POST"), strings.Contains(text, "verif auth failure"):
+		return "refused"
 	case strings.Contains(text, "unexpected field"):
 		return "field"
 	case strings.Contains(text, "no valid benchmark lines"):
@@ -563,9 +576,24 @@ func errTag(text string) string {
 	return "other:" + hx.HexS(text)
 }
 
-func (s *server) post(body []byte) response {
-	req := httptest.NewRequest("POST", "/upload", bytes.NewReader(body))
-	req.Header.Set("Content-Type", "multipart/form-data; boundary="+boundary)
+func (s *server) post(body []byte) response { return s.postPre(body, "") }
+
+// postPre sends the body; `pre` makes the request one the handler must refuse before reading parts
+func (s *server) postPre(body []byte, pre string) response {
+	method, ctype := "POST", "multipart/form-data; boundary="+boundary
+	switch pre {
+	case "ctype":
+		ctype = "text/plain"
+	case "boundary":
+		ctype = "multipart/form-data"
+	case "method":
+		method = "PUT"
+	case "auth":
+		s.authFail = true
+		defer func() { s.authFail = false }()
+	}
+	req := httptest.NewRequest(method, "/upload", bytes.NewReader(body))
+	req.Header.Set("Content-Type", ctype)
 	rec := httptest.NewRecorder()
 	s.mux.ServeHTTP(rec, req)
 	return decodeResponse(rec.Code, rec.Body.Bytes())
@@ -761,7 +789,9 @@ func runScenarioOnce(id int, sc *scenario) bool {
 		}
 		var evs []evPart
 		var endErr bool
-		if rq.client != "" {
+		if rq.pre != "" {
+			tags["refused-"+rq.pre] = true
+		} else if rq.client != "" {
 			for _, p := range rq.parts {
 				evs = append(evs, evPart{isFile: true, fname: serverName(p.fname), content: []byte(p.content), chunks: []int{len(p.content)}})
 				if p.content == "" {
@@ -791,6 +821,11 @@ func runScenarioOnce(id int, sc *scenario) bool {
 			}
 		}
 		reqEnc = append(reqEnc, encodeEvents(evs, endErr, rq.fault, cutFlag))
+		if rq.pre != "" {
+			reqEnc[len(reqEnc)-1] += "|" + rq.pre
+		} else {
+			reqEnc[len(reqEnc)-1] += "|-"
+		}
 
 		before := s.snap()
 		nidsBefore := len(s.ffs.ids)
@@ -798,7 +833,9 @@ func runScenarioOnce(id int, sc *scenario) bool {
 		reqDay := utcDay()
 		s.ffs.reset(rq.fault)
 		var resp response
-		if rq.client != "" {
+		if rq.pre != "" {
+			resp = s.postPre(body, rq.pre)
+		} else if rq.client != "" {
 			resp = s.viaClient(rq)
 		} else if cutFlag == 2 {
 			resp = s.postCut(body, fullLen)
@@ -1019,7 +1056,7 @@ var badFiles = []string{"", "uid: %s\n", "uid: %s\nPASS\nhello world\n", "Benchm
 var fieldNames = []string{"abort", "foo", "File", "", "attachment", "files", "file[]", "file2", "FILE", "commit2"}
 
 func fileNames(r *hx.Rand) string {
-	return hx.Pick(r, []string{"a.txt", "", "dir/b.txt", `c:\x\y.txt`, "r.out"})
+	return hx.Pick(r, []string{"a.txt", "", "dir/b.txt", `c:\x\y.txt`, "r.out", `\lead.txt`})
 }
 
 func goodReq(r *hx.Rand, uid string, nfiles int) reqSpec {
@@ -1169,7 +1206,7 @@ func main() {
 		base := goodReq(g.r, "x", 1+b%3)
 		body, _ := buildBody(base.parts, base.preamble)
 		stride := 1
-		if !thorough && b > 0 {
+		if !thorough && b > 1 {
 			stride = 3
 		}
 		for off := 0; off <= len(body); off += stride {
@@ -1242,6 +1279,16 @@ func main() {
 			tag = "dbclash"
 		}
 		g.emit(g.wrap(rq, tag))
+	}
+
+	// 3a. requests the handler refuses before it reads a part (not multipart, no boundary, wrong method,
+	// authentication failure): an error must be reported and nothing may change
+	for i, pre := range []string{"ctype", "boundary", "method", "auth"} {
+		for j := 0; j < hx.N(1, 6); j++ {
+			rq := goodReq(g.r, g.uid(), 1+(i+j)%2)
+			rq.pre = pre
+			g.emit(g.wrap(rq, "refused"))
+		}
 	}
 
 	// 3b. every field name x {no filename, filename} x {before, between, after the files}: a part whose
